@@ -26,7 +26,7 @@ def sh(cmd, cwd, env=None, timeout=900):
 
 
 def ingest(pid):
-    wt = f"/tmp/wt/{pid}"
+    wt = "/tmp/wt/" + os.environ.get("SEED_PREFIX", "") + pid
     env = {"PYTHONPATH": f"{wt}/src", "PYTHONDONTWRITEBYTECODE": "1"}
     out_root = os.path.join(wt, "_out")
     props = {json.loads(l)["id"]: json.loads(l) for l in open("/verif/properties.jsonl")}
@@ -53,7 +53,7 @@ def ingest(pid):
         print(f"{pid}-{k}: demo clean={r0.returncode} suite='{tail}' demo changed={r1.returncode} files={files} -> {'KEEP' if ok else 'REJECT'}")
         if not ok:
             continue
-        dst = f"/verif/seeded/{pid}-{k}"
+        dst = "/verif/seeded/" + os.environ.get("SEED_TAG", "") + f"{pid}-{k}"
         os.makedirs(dst, exist_ok=True)
         shutil.copy(patch, os.path.join(dst, "patch.diff"))
         shutil.copy(demo, os.path.join(dst, "demo.py"))
